@@ -25,7 +25,7 @@ from common import close
 # resuming an EXTEND-SPLIT run through performSpatiallyAdaptiv(refinement_container=...) still counts every area twice
 # (init_adaptive_combi: reinit_new_objects() makes all areas new again, operation.integral is not reset); proposed repair:
 # /verif/handoff/postfix/C14/fix-1-*.diff.  The path is generated for extend-split once that repair is in the tree.
-ES_CONTAINER_RESUME = False
+ES_CONTAINER_RESUME = True
 
 
 def view(sa, cfg):
